@@ -90,6 +90,14 @@ int main(void)
 	GEN_NAT("pm1MaxCopyBlockLen", MAX_COPY_BLOCK_LEN);
 	GEN_NAT("pm1MaxRead", lha_pm1_decoder.max_read);
 	GEN_NAT("pm1BlockSize", lha_pm1_decoder.block_size);
+	{
+		LHAPM1Decoder *st = malloc(sizeof(LHAPM1Decoder));
+		memset(st, 0xa5, sizeof(LHAPM1Decoder));      // pm1 clears its state itself
+		GEN_NAT("pm1InitOk", lha_pm1_init(st, no_input, NULL) != 0);
+		GEN_NAT("pm1InitRingAllZero", all_equal(st->ringbuf, sizeof(st->ringbuf), 0));
+		GEN_NAT("pm1InitRingPos", st->ringbuf_pos);
+		GEN_NAT("pm1InitOutputPos", st->output_stream_pos);
+	}
 	printf("def pm1CopyRanges : List (Nat × Nat) := [");
 	for (i = 0; i < sizeof(copy_ranges) / sizeof(*copy_ranges); ++i)
 		printf("%s(%u, %u)", i ? ", " : "", copy_ranges[i].offset, copy_ranges[i].bits);
@@ -118,6 +126,17 @@ int main(void)
 	GEN_NAT("pm2HistoryCap", sizeof(d->history_list.history) / sizeof(HistoryNode));
 	GEN_NAT("pm2MaxRead", lha_pm2_decoder.max_read);
 	GEN_NAT("pm2BlockSize", lha_pm2_decoder.block_size);
+	{
+		LHAPM2Decoder *st = calloc(1, sizeof(LHAPM2Decoder));
+		unsigned int k, ok = 1;
+		GEN_NAT("pm2InitOk", lha_pm2_decoder_init(st, no_input, NULL) != 0);
+		GEN_NAT("pm2InitRingAllSpaces", all_equal(st->ringbuf, sizeof(st->ringbuf), ' '));
+		GEN_NAT("pm2InitRingPos", st->ringbuf_pos);
+		for (k = 0; k < sizeof(st->code_tree) / sizeof(TreeElement); ++k) ok = ok && st->code_tree[k] == TREE_NODE_LEAF;
+		for (k = 0; k < sizeof(st->offset_tree) / sizeof(TreeElement); ++k) ok = ok && st->offset_tree[k] == TREE_NODE_LEAF;
+		GEN_NAT("pm2InitTreesAllLeaf", ok);
+		GEN_NAT("pm2InitRebuildRemaining", st->tree_rebuild_remaining);
+	}
 	printf("def pm2HistoryDecode : List (Nat × Nat) := [");
 	for (i = 0; i < sizeof(history_decode) / sizeof(*history_decode); ++i)
 		printf("%s(%u, %u)", i ? ", " : "", history_decode[i].offset, history_decode[i].bits);
